@@ -26,7 +26,11 @@ func probeMain(args []string) int {
 			}, SchedSeed: 3}
 	}
 	if len(args) > 1 {
-		_ = json.Unmarshal([]byte(args[1]), &in)
+		in = In{}
+		if err := json.Unmarshal([]byte(args[1]), &in); err != nil {
+			fmt.Fprintln(os.Stderr, "bad case:", err)
+			return 2
+		}
 	}
 	defer closeEnv()
 	out := RunCase(in)
